@@ -183,6 +183,10 @@ def step (_ : Unit) (ws : List String) : Unit × String :=
           "ok " ++ showFloats [a.1, a.2, r.1, r.2]
         | none => "bad-op"
       | none => "bad-op"
+    | ["gram", qs] =>
+      match (splitOrEmpty qs ";").mapM parseIntList? with
+      | some rows => if rows.all (·.length == 4) then "ok " ++ showInts (gram 4 rows).flatten else "bad-op"
+      | none => "bad-op"
     | ["rcf2ippe"] => "ok " ++ showInts rCfToIppe.flatten
     | _ => "bad-op"
   ((), r)
